@@ -107,6 +107,16 @@ def mtl_faults(rng, prog, feats, losses, tasks, shared):
                 faults.append((kind, (ti, pos), dict(base, tasks=tp)))
                 if pos == 0:
                     faults.append((kind, (ti, "shared_params defaulted"), dict(base, tasks=tp, shared=None)))
+    # a NON-LEAF VIEW of a parameter that is itself listed earlier (q.reshape(...): same storage, same data_ptr,
+    # same values, a different tensor): listed in the last task, after its base in an earlier group
+    if len(tasks) >= 2:
+        bases = [q for q in (list(shared) + [x for ps in tasks[:-1] for x in ps]) if len(prog.shapes[q]) <= 1]
+        if bases:
+            q = rng.choice(bases)
+            v = prog.op("reshape", [q], shape=prog.shapes[q])
+            tp = [list(ps) for ps in tasks]
+            tp[-1] = tp[-1] + [v]
+            faults.append(("param_view_of_listed_leaf", (len(tasks) - 1, len(tp[-1]) - 1), dict(base, tasks=tp)))
     return faults
 
 
